@@ -26,6 +26,11 @@ def run(tier, seed, pid=PID):
             out.violate(sig, what, rp)
         for d in d3:
             out.drift(d)
+    rf_runs = 0
+    if pid == "C02":
+        v4, rf_runs = E.reverse_solve_faults(tier)
+        for owner, sig, what, rp in v4:
+            out.violate(sig, what, rp)
     tr = E.run_traces(tier, f"{pid.lower()}_{tier}_trace")
     for owner, sig, what, rp in tr["failures"]:
         if owner == pid:
@@ -36,6 +41,7 @@ def run(tier, seed, pid=PID):
         "states": res.distinct + tr["states"] + ff_states, "transitions": res.generated + tr["states"] + ff_states,
         "traces_validated_against_impl": len(tr["traces"]) + ff_replayed,
         "finite_field_states_checked_and_replayed": ff_replayed,
+        "scripted_backward_solve_faults": rf_runs,
         "composition_schemes_enumerated_and_instantiated": n,
         "integrator_system_scenarios": len(tr["traces"]) // 2,
         "step_outcomes": sorted({t["outcome"].split(":")[0] for t in tr["traces"]}),
@@ -48,6 +54,11 @@ def run(tier, seed, pid=PID):
 
 def replay(rep, pid=PID):
     out = Outcome(pid)
+    if rep.get("engine") == "integrators-revfault":
+        for owner, sig, what, rp in E.reverse_solve_faults("thorough")[0]:
+            if all(rp.get(k) == rep.get(k) for k in ("integ", "flavour", "direction", "j")):
+                out.violate(sig, what, rp)
+        return out
     if rep.get("engine") == "integrators-trace":
         sc = rep["scenario"]
         tr = E.record_step(sc, rep["direction"])
